@@ -809,3 +809,36 @@ def py_dead_stores(ctx, py, mods, only=None, rule="PY-DEAD-STORE"):
             ctx.ob(rule, "%s.%s" % (mn, qn), not dead, m.loc(stores[dead[0]]) if dead else m.loc(fn),
                    "every assigned name is read" if not dead else "name(s) %s assigned but never read" % dead)
     return n
+
+
+def immutable_treeseq(ctx, py, rule="PY-TS-IMMUTABLE"):
+    ctx.rule(rule, "TreeSequence, Tree and Variant never rebind or mutate the low-level tree sequence they wrap: `_ll_tree_sequence` is "
+                   "assigned only in __init__ / __setstate__, and the mutating low-level methods (load, load_tables) are invoked only "
+                   "on a freshly constructed _tskit.TreeSequence() local, never on self._ll_tree_sequence")
+    m = py.mod("trees")
+    n = 0
+    for qn, fn in m.funcs.items():
+        cls = qn.split(".")[0]
+        if cls not in ("TreeSequence", "Tree"):
+            continue
+        for x in ast.walk(fn):
+            if isinstance(x, (ast.Assign, ast.AugAssign)):
+                tg = x.targets if isinstance(x, ast.Assign) else [x.target]
+                for t in tg:
+                    if isinstance(t, ast.Attribute) and t.attr == "_ll_tree_sequence":
+                        n += 1
+                        ok = qn.split(".")[-1] in ("__init__", "__setstate__")
+                        ctx.ob(rule, "%s|assign" % qn, ok, m.loc(x), "_ll_tree_sequence assigned in %s" % qn)
+            if isinstance(x, ast.Call) and isinstance(x.func, ast.Attribute) and x.func.attr in ("load", "load_tables"):
+                recv = dotted(x.func.value) or ""
+                if recv.endswith("_ll_tree_sequence"):
+                    n += 1
+                    ctx.ob(rule, "%s|%s" % (qn, x.func.attr), False, m.loc(x), "%s() called on the wrapped low-level tree sequence" % x.func.attr)
+                elif recv in ("ts", "ll_ts"):
+                    # must be a fresh local
+                    fresh = any(isinstance(a, ast.Assign) and any(isinstance(t, ast.Name) and t.id == recv for t in a.targets)
+                                and isinstance(a.value, ast.Call) and (call_name(a.value) or "").endswith("_tskit.TreeSequence") for a in ast.walk(fn))
+                    n += 1
+                    ctx.ob(rule, "%s|%s" % (qn, x.func.attr), fresh, m.loc(x), "%s() on a freshly constructed _tskit.TreeSequence()" % x.func.attr)
+    ctx.ob(rule, "instances", n >= 3, m.rel, "%d assignment / loader sites analysed" % n)
+    return n
